@@ -143,6 +143,8 @@ type c02Case struct {
 	DPoP   bool   `json:"dpop"`
 	// Window: validity period of the (valid) main presentation: 0 = [now, now+5s], 1 = [now-2s, now+3s]
 	Window int `json:"window"`
+	// AudForm: how a (valid) JWT presentation spells its audience: 0 = array of one (as the node wallet does), 1 = plain string
+	AudForm int `json:"aud_form"`
 	// Leg: for a scope with both an organization and a user definition: which of the two the s2s request fulfils
 	// (the vp_token-bearer grant carries one submission), resp. which OpenID4VP leg of the authorization-code flow gets the defects.
 	Leg      int         `json:"leg"`
@@ -169,7 +171,7 @@ var (
 
 // defect groups: at most one defect per group, so that two defects can never cancel each other
 var c02S2SDefects = map[string][]string{
-	"aud":        {"aud_wrong", "aud_absent"},
+	"aud":        {"aud_wrong", "aud_absent", "aud_near_miss", "aud_near_miss", "aud_equivalent", "aud_array_contains"},
 	"validity":   {"validity_long", "validity_no_exp", "validity_stale"},
 	"nonce":      {"nonce_missing", "nonce_reused"},
 	"subject":    {"signer_not_subject", "foreign_cred_in_vp", "mixed_subjects", "mixed_subjects_via_empty_vp"},
@@ -179,7 +181,7 @@ var c02S2SDefects = map[string][]string{
 }
 
 var c02CodeDefects = map[string][]string{
-	"aud":        {"aud_wrong", "aud_absent"},
+	"aud":        {"aud_wrong", "aud_absent", "aud_near_miss", "aud_near_miss", "aud_equivalent", "aud_array_contains"},
 	"nonce":      {"nonce_missing", "nonce_foreign"},
 	"subject":    {"signer_not_subject", "foreign_cred_in_vp", "mixed_subjects", "mixed_subjects_via_empty_vp"},
 	"definition": {"foreign_definition", "unfulfilled", "forged_map"},
@@ -278,6 +280,7 @@ func c02Gen(t *rapid.T) c02Case {
 	c.ClientID = rapid.IntRange(0, len(c02ClientIDs)-1).Draw(t, "client_id")
 	c.Leg = rapid.IntRange(0, 1).Draw(t, "leg")
 	c.Window = rapid.SampledFrom([]int{0, 0, 1}).Draw(t, "window")
+	c.AudForm = rapid.SampledFrom([]int{0, 0, 0, 1}).Draw(t, "aud_form")
 
 	groups := c02S2SDefects
 	if c.Flow == "code" {
@@ -301,7 +304,7 @@ func c02Gen(t *rapid.T) c02Case {
 		picked[g] = true
 		c.Defects = append(c.Defects, c02Defect{
 			Name: rapid.SampledFrom(groups[g]).Draw(t, "defect"),
-			Arg:  rapid.IntRange(0, 11).Draw(t, "darg"),
+			Arg:  rapid.IntRange(0, 25).Draw(t, "darg"),
 		})
 	}
 	sort.Slice(c.Defects, func(i, j int) bool { return c.Defects[i].Name < c.Defects[j].Name })
